@@ -260,6 +260,8 @@ def lane_horizon(a, spec):
         world = gen.World(rng)
         ids = world.grow(k + 4, rng, tx_prob=0.5, bias="linear")
         by_h = {world.chain.blocks[b].height: b for b in ids}
+        if k not in by_h or any(h not in by_h for h in range(1, k + 1)):
+            continue
         below = rng.randrange(1, k)
         for cp_h in (k, below):
             bid = by_h[cp_h]
